@@ -561,7 +561,7 @@ pub fn c05(ctx: &Ctx, rep: &mut Report) {
     }
     rep.count("table_cells_total", (recvs.len() * names.len() * arg_sets.len()) as u64);
     // (a) alternate compiler with randomised conventions
-    let n = ctx.share(15_000, 600_000);
+    let n = ctx.share(80_000, 2_000_000);
     let dir = ctx.scratch("c05");
     let cli_every = (n / if ctx.quick() { 8 } else { 150 }).max(1);
     for i in 0..n {
@@ -763,7 +763,7 @@ pub fn c08(ctx: &Ctx, rep: &mut Report) {
         }
         return;
     }
-    let n = ctx.share(300, 10_000);
+    let n = ctx.share(1_200, 20_000);
     for i in 0..n {
         if ctx.out_of_time() && i > n / 4 {
             rep.notes.push(format!("time budget reached after {} of {} programs", i, n));
@@ -824,7 +824,7 @@ pub fn c08(ctx: &Ctx, rep: &mut Report) {
     }
     // real sinks at the CLI: > file, pipe, slowly drained pipe, each against -o file
     let dir = ctx.scratch("c08");
-    let m = ctx.share(200, 5_000);
+    let m = ctx.share(400, 8_000);
     for i in 0..m {
         if ctx.out_of_time() && i > m / 4 {
             break;
